@@ -119,17 +119,18 @@ fn comp_stats(kind: &CK, ci: usize, cols: &[Vec<f64>], r: &mut Sm) -> Vec<Stat> 
             out.push(Stat { name: format!("c{ci}.axis-z~U(-1,1)"), values: zc, cdf: Box::new(|z| (z + 1.0) / 2.0), direct: None });
             out.push(Stat { name: format!("c{ci}.axis-azimuth~U(-pi,pi)"), values: az, cdf: Box::new(|a| (a + PI) / (2.0 * PI)), direct: None });
             if bounds.is_none() || rad >= PI - 1e-12 {
+                // q and -q are the same rotation, and which of the two a sampler returns is its own
+                // business (always w >= 0 is as Haar-uniform as a fair sign): the coordinate laws
+                // are tested on absolute values, P(|x| <= a) = 2 F(a) - 1
                 for i in 0..4 {
-                    out.push(Stat { name: format!("c{ci}.q{i}~S3-coordinate"), values: cols[i].clone(), cdf: Box::new(cdf_coord_s3), direct: None });
+                    out.push(Stat { name: format!("c{ci}.|q{i}|~|S3-coordinate|"), values: cols[i].iter().map(|x| x.abs()).collect(), cdf: Box::new(|x| 2.0 * cdf_coord_s3(x.max(0.0)) - 1.0), direct: None });
                 }
                 for p in 0..8 {
                     let u = r.quat();
-                    let vals: Vec<f64> = (0..n).map(|k| u[0] * cols[0][k] + u[1] * cols[1][k] + u[2] * cols[2][k] + u[3] * cols[3][k]).collect();
-                    out.push(Stat { name: format!("c{ci}.projection{p}~S3-coordinate"), values: vals, cdf: Box::new(cdf_coord_s3), direct: None });
+                    let vals: Vec<f64> = (0..n).map(|k| (u[0] * cols[0][k] + u[1] * cols[1][k] + u[2] * cols[2][k] + u[3] * cols[3][k]).abs()).collect();
+                    out.push(Stat { name: format!("c{ci}.|projection{p}|~|S3-coordinate|"), values: vals, cdf: Box::new(|x| 2.0 * cdf_coord_s3(x.max(0.0)) - 1.0), direct: None });
                 }
-                // fair sign of w as a two-point distribution
-                let frac = wsign as f64 / n as f64;
-                out.push(Stat { name: format!("c{ci}.sign(w)-fair[frac={frac:.5}]"), values: vec![0.0; n], cdf: Box::new(|x| x), direct: Some((frac - 0.5).abs()) });
+                let _ = wsign;
             }
         }
     }
@@ -300,7 +301,7 @@ fn check_setting(ctx: &Ctx, setting: &Setting, seed: u64, n_target: usize) {
             }
             // within one SO3 component only the angle/axis statistics are mutually independent;
             // raw quaternion coordinates are not independent of each other
-            if ca == cb && (sa.name.contains(".q") || sb.name.contains(".q")) {
+            if ca == cb && (sa.name.contains("|q") || sb.name.contains("|q")) {
                 continue;
             }
             let mut sorted = sb.values.clone();
@@ -333,6 +334,11 @@ fn check_setting(ctx: &Ctx, setting: &Setting, seed: u64, n_target: usize) {
     ctx.merge(b);
 }
 
+fn axis_angle_q(axis: [f64; 3], angle: f64) -> [f64; 4] {
+    let s = (angle / 2.0).sin();
+    [axis[0] * s, axis[1] * s, axis[2] * s, (angle / 2.0).cos()]
+}
+
 fn settings(r: &mut Sm, k: usize) -> Vec<Setting> {
     let mut v = vec![];
     let rb = |r: &mut Sm, n: usize| -> Vec<(f64, f64)> {
@@ -346,6 +352,12 @@ fn settings(r: &mut Sm, k: usize) -> Vec<Setting> {
     // a finite interval whose width overflows: the sampler may refuse it (documented error), but
     // if it samples, the law must still be uniform
     v.push(Setting { spec: Spec::plain(Wrap::R, CK::R { n: 1, bounds: Some(vec![(-1.7e308, 0.2e308)]) }, None), via: "may-refuse" });
+    // in every run, whatever k: wide cones (beyond 2 pi / 3 the cone covers most of the group) and
+    // cones around large rotations (centre angle + radius > pi: the cone wraps past the w = 0
+    // hyperplane of the quaternion sphere)
+    for (c, rad) in [(r.quat(), 2.6), (r.quat(), 3.0), ([1.0, 0.0, 0.0, 0.0], 1.0), (axis_angle_q([0.6, 0.0, 0.8], 2.6), 1.2)] {
+        v.push(Setting { spec: Spec::plain(Wrap::So3, CK::So3 { bounds: Some((c, rad)) }, None), via: "direct" });
+    }
     for i in 0..k {
         let n = [1usize, 3, 6, 2, 4, 5, 6, 2][i % 8];
         v.push(Setting { spec: Spec::plain(Wrap::R, CK::R { n, bounds: Some(rb(r, n)) }, None), via: "direct" });
@@ -415,7 +427,7 @@ pub fn run(tier: Tier, seed: u64) -> i32 {
     ctx.require("independence_tests");
     let tests = ctx.counter("marginal_tests") + ctx.counter("independence_tests");
     ctx.finish(
-        "cases = samples drawn by sample_uniform (one ChaCha8 stream per setting, seeds derived from VERIF_SEED); every scalar statistic (coordinates, angle, rotation angle, axis z / azimuth, quaternion coordinates and 8 random projections, sign of w) is tested against its exact CDF by the DKW inequality, and pairs of statistics for independence by a two-sample DKW bound; distinct+non-trivial = distinct sample bit patterns in a 1-in-k subsample",
+        "cases = samples drawn by sample_uniform (one ChaCha8 stream per setting, seeds derived from VERIF_SEED); every scalar statistic (coordinates, angle, rotation angle, axis z / azimuth, absolute quaternion coordinates and 8 random projections - q and -q are one rotation) is tested against its exact CDF by the DKW inequality, and pairs of statistics for independence by a two-sample DKW bound; distinct+non-trivial = distinct sample bit patterns in a 1-in-k subsample",
         &[
             "a bias smaller than the DKW epsilon printed in the samples is invisible to this check",
             "false-alarm probability per run <= (number of tests) * 1e-9, for every seed",
